@@ -38,9 +38,11 @@ import (
 	"bytes"
 	"encoding/binary"
 	"fmt"
-	"io"
+	"os"
+	"runtime/debug"
 	"sort"
 	"strings"
+	"sync"
 	"testing"
 	"time"
 
@@ -78,9 +80,31 @@ var c07NotPersisted = map[string]bool{
 
 var c07FP = kit.FPOptions{NilEqualsEmpty: true, Skip: c07NotPersisted}
 
+// c07LastLog keeps the last error-level log line: a Panicf message of the code under test would otherwise be masked
+// by the nil dereference of a deferred tracer call (voteAggregator.handle defers logVoteAggregatorResult(e, res)).
+type c07LastLog struct {
+	mu   sync.Mutex
+	last string
+}
+
+func (l *c07LastLog) Write(b []byte) (int, error) {
+	l.mu.Lock()
+	l.last = string(b)
+	l.mu.Unlock()
+	return len(b), nil
+}
+
+func (l *c07LastLog) get() string {
+	l.mu.Lock()
+	defer l.mu.Unlock()
+	return strings.TrimSpace(l.last)
+}
+
+var c07LogSink = &c07LastLog{}
+
 var c07Log = func() logging.Logger {
 	l := logging.NewLogger()
-	l.SetOutput(io.Discard)
+	l.SetOutput(c07LogSink)
 	l.SetLevel(logging.Error)
 	return l
 }()
@@ -753,12 +777,32 @@ func c07NewMachine(start round) *c07Machine {
 
 func (m *c07Machine) step(e event) (acts []action, pan string) {
 	defer func() {
+		if os.Getenv("VERIF_C07_NORECOVER") != "" {
+			return // debugging aid: let the process die so that the runtime prints the whole panic chain
+		}
 		if r := recover(); r != nil {
 			pan = fmt.Sprint(r)
+			if strings.Contains(pan, "runtime error") {
+				pan += " @ " + c07Frames(string(debug.Stack())) + " | last error log: " + c07LogSink.get()
+			}
 		}
 	}()
 	m.p, acts = m.rr.submitTop(m.tr, m.p, e)
 	return acts, ""
+}
+
+// c07Frames keeps the agreement frames of a stack trace (for the witness of a runtime error).
+func c07Frames(st string) string {
+	var out []string
+	for _, ln := range strings.Split(st, "\n") {
+		if strings.Contains(ln, "/agreement/") && !strings.Contains(ln, "verif_") {
+			out = append(out, strings.TrimSpace(ln))
+		}
+		if len(out) >= 6 {
+			break
+		}
+	}
+	return strings.Join(out, " <- ")
 }
 
 func (m *c07Machine) encode(acts []action, reflect bool) []byte {
@@ -1097,10 +1141,14 @@ func c07Stream(c *kit.Ctx, stream uint64, idx int, nEvents int, visit func(m *c0
 			// the uncrashed machine itself refuses the stream (contract checker / assumption): not this property
 			c.Count("streams_ended_by_primary_panic", 1)
 			c.Count("primary_panic: "+strings.SplitN(pan, ":", 2)[0], 1)
+			c.Observation("uncrashed machine panicked (stream c.Rand(%d,%d), event %d %s): %s", stream, idx, i, desc, pan)
 			return
 		}
 		c.Count("events", 1)
 		c.Count("ev."+strings.SplitN(strings.TrimPrefix(strings.TrimPrefix(desc, "queued:"), "own "), " ", 2)[0], 1)
+		for _, a := range acts {
+			c.Count("act."+a.t().String(), 1)
+		}
 		w.observe(acts, i)
 		if after != nil {
 			after(e, desc, acts, i)
@@ -1120,11 +1168,11 @@ func TestVerifC07Codec(t *testing.T) {
 	defer c.Finish()
 	c.Rule("states = (router, player, pending actions) reached along PRNG-driven protocol-valid event streams (7 voters, 2 of them possibly equivocating, proposal-votes with payloads, pipelined payloads, bundles, timeouts, fast timeouts, round interruptions, checkpoints, verification replies, own votes looped back) into a real rootRouter+player; checked at every persist point (an attest action pending) and at PRNG-chosen other points: bytewise idempotence over msgp/reflection codec pairs and survival of every field outside the not-persisted list; distinct = distinct state-shape classes (period, step, napping, numbers of round/period/step routers, votes, equivocators, assemblers, pipelined payloads, pending tails, pending actions)")
 	c.Assume("votes are struct-level (chosen weights, filler signatures): player and router do not verify cryptography; the not-persisted list c07NotPersisted was established on the unchanged tree")
-	nstreams := c.N(60, 1500)
+	nstreams := c.N(24, 900)
 	for s := 0; s < nstreams && c.Violations() <= 20; s++ {
 		none := &c07Restrict{}
-		c07Stream(c, 70, s, c.N(500, 700), func(m *c07Machine, acts []action, w *c07World, i int, trace []string) bool {
-			if !(persistent(acts) || w.r.Chance(1, 6)) {
+		c07Stream(c, 70, s, c.N(400, 600), func(m *c07Machine, acts []action, w *c07World, i int, trace []string) bool {
+			if !(persistent(acts) || w.r.Chance(1, 8)) {
 				return true
 			}
 			acts = c07Persisted(c, acts)
@@ -1140,7 +1188,7 @@ func TestVerifC07Codec(t *testing.T) {
 		}, func() *c07Restrict { return none }, nil)
 		c.Count("streams", 1)
 	}
-	c.Require("states", int64(c.N(3000, 80000)))
+	c.Require("states", int64(c.N(1200, 50000)))
 	c.Require("states_period_gt0", 100)
 	c.Require("states_with_equivocation_records", 100)
 	c.Require("states_with_pipelined_next_round", 100)
@@ -1199,10 +1247,11 @@ func TestVerifC07Behaviour(t *testing.T) {
 						c.Violation("actions-differ-after-restore", where(fmt.Sprintf("%s, %d events after the snapshot: %s", rp.name, i-cur.rs.snapAt, d)))
 						return false
 					}
+					// the state proper (actions were compared above: a broadcastVotes action lists votes in map order)
 					if want == nil {
-						want = m.encode(acts, false)
+						want = m.encode(nil, false)
 					}
-					if got := rp.m.encode(racts, false); !bytes.Equal(want, got) {
+					if got := rp.m.encode(nil, false); !bytes.Equal(want, got) {
 						od := kit.Describe(struct {
 							R rootRouter
 							P player
